@@ -223,9 +223,9 @@ def add_simplex_to(chk, r, n, **kw):
 
 # ----------------------------------------------------------------------------- Bayesian / TPE / Forest, complete model
 
-SMBO_NAME = ("whole optimizer BayesianOptimizer / TreeStructuredParzenEstimators / ForestOptimizer (X/Y training lists, candidate set with constraint "
+SMBO_NAME = ("whole optimizer BayesianOptimizer / TreeStructuredParzenEstimators / ForestOptimizer / LipschitzOptimizer (X/Y training lists, candidate set with constraint "
              "filter and removal, training-failure fallback, subsampling, proposal = first row of the checked descending argsort of the acquisition "
-             "vector; the ValueError of an exhausted candidate set and Forest's NotFittedError are PREDICTED): GFO.Model.SmboBackend driven through the "
+             "vector; the ValueError / IndexError of an exhausted candidate set, Forest's NotFittedError and Lipschitz's ValueError without a valid sample are PREDICTED): GFO.Model.SmboBackend driven through the "
              "driver model by the recorded tape must emit the same positions, rows, trace, best result or the same exception, the tracker, X_sample, "
              "Y_sample, the number of candidates and consume the tape exactly")
 
